@@ -70,7 +70,58 @@ type Finding struct {
 	Family      string `json:"family,omitempty"`
 	Contains    string `json:"note_contains,omitempty"`
 	WhyContains string `json:"why_contains,omitempty"`
-	Input       string `json:"input,omitempty"` // stored input (corpus) for fixed entries
+	Corpus      []struct {
+		Input     string  `json:"input"`
+		Data      string  `json:"data"`
+		ExpectOut *string `json:"expect_out"`
+		ExpectErr *string `json:"expect_err"`
+		ExpectOK  bool    `json:"expect_ok"`
+	} `json:"corpus,omitempty"`
+}
+
+// corpusCases: the stored inputs of fixed findings run first in every check of their property
+func corpusCases(id string) []*Case {
+	var cs []*Case
+	for _, f := range loadFindings() {
+		if f.Property != id {
+			continue
+		}
+		for _, e := range f.Corpus {
+			data := e.Data
+			if data == "" {
+				data = "(M)"
+			}
+			c := &Case{Kind: "eval", Fields: []string{hx(e.Input), data}, Family: "corpus_fixed_findings", Note: e.Input}
+			what := f.What
+			switch {
+			case e.ExpectOut != nil:
+				want := *e.ExpectOut
+				c.Oracle = func(c *Case, impl string) string {
+					if why := expectOut(want)(c, impl); why != "" {
+						return "a fixed defect is back (" + what + "): " + why
+					}
+					return ""
+				}
+			case e.ExpectErr != nil:
+				part := *e.ExpectErr
+				c.Oracle = func(c *Case, impl string) string {
+					if why := wantErr(part)(impl); why != "" {
+						return "a fixed defect is back (" + what + "): " + why
+					}
+					return ""
+				}
+			default:
+				c.Oracle = func(c *Case, impl string) string {
+					if strings.HasPrefix(impl, "OK") || strings.HasPrefix(impl, "ERR") {
+						return ""
+					}
+					return "a fixed defect is back (" + what + "): " + clip(impl, 200)
+				}
+			}
+			cs = append(cs, c)
+		}
+	}
+	return cs
 }
 
 var (
@@ -116,6 +167,9 @@ func main() {
 		cases = loadReplay(*replay, id, g)
 	} else {
 		cases = buildCases(id, g)
+		if cases != nil {
+			cases = append(corpusCases(id), cases...)
+		}
 	}
 	if cases == nil {
 		fmt.Fprintln(os.Stderr, "unknown property", id)
@@ -339,8 +393,35 @@ type proc struct {
 	ch  chan string
 }
 
-func startProc(name string, args ...string) *proc {
+var raceWorkerPath = "/verif/bin/harness-race"
+
+// readRaceLog returns the head of the race detector's report, if any
+func readRaceLog(base string) string {
+	ms, _ := filepath.Glob(base + ".*")
+	for _, m := range ms {
+		data, err := os.ReadFile(m)
+		if err == nil && strings.Contains(string(data), "DATA RACE") {
+			var keep []string
+			for _, l := range strings.Split(string(data), "\n") {
+				l = strings.TrimSpace(l)
+				if strings.Contains(l, "textwire") || strings.HasPrefix(l, "Write at") || strings.HasPrefix(l, "Read at") || strings.HasPrefix(l, "Previous") {
+					keep = append(keep, l)
+				}
+				if len(keep) > 10 {
+					break
+				}
+			}
+			return strings.Join(keep, " ; ")
+		}
+	}
+	return ""
+}
+
+func startProc(name string, args ...string) *proc { return startProcEnv(name, nil, args...) }
+
+func startProcEnv(name string, env []string, args ...string) *proc {
 	cmd := exec.Command(name, args...)
+	cmd.Env = append(os.Environ(), env...)
 	cmd.Stderr = io.Discard
 	in, _ := cmd.StdinPipe()
 	outp, _ := cmd.StdoutPipe()
@@ -423,8 +504,22 @@ func runAll(cases []*Case) {
 			for i := s; i < len(cases); i += nShards {
 				c := cases[i]
 				fields := c.Fields
-				if c.Kind == "hist" {
+				if c.Kind == "hist" || c.Kind == "conc" {
 					fields = append([]string{hx(cwd)}, c.Fields...)
+				}
+				if c.Kind == "conc" {
+					// a dedicated race-enabled worker per case; a detected race ends the process
+					logBase := filepath.Join(scratch, fmt.Sprintf("race-%d", i))
+					rw := startProcEnv(raceWorkerPath, []string{"GORACE=halt_on_error=1 log_path=" + logBase}, "worker")
+					ans, ok := rw.ask(i, c.Kind+"\t"+strings.Join(fields, "\t"), 120*time.Second)
+					rw.kill()
+					if !ok {
+						if rep := readRaceLog(logBase); rep != "" {
+							ans = "CRASH DATA RACE " + rep
+						}
+					}
+					c.impl = ans
+					continue
 				}
 				req := c.Kind + "\t" + strings.Join(fields, "\t")
 				to := c.Timeout
